@@ -19,6 +19,10 @@ class Atom:
     def __repr__(self):
         if self.kind == 'sym':
             return self.name
+        if self.name == 'field' and len(self.args) == 2:
+            return '%s.%s' % (show_arg(self.args[0]), self.args[1])
+        if self.name == 'elem' and len(self.args) == 2:
+            return '%s[%s]' % (show_arg(self.args[0]), show_arg(self.args[1]))
         return '%s(%s)' % (self.name, ', '.join(map(show_arg, self.args)))
 
 
@@ -47,8 +51,17 @@ def sym_atom(name):
 
 def app_atom(fname, *args):
     """args: RF or any hashable python value (str, int, tuple)."""
-    k = tuple(a.key() if hasattr(a, 'key') and callable(getattr(a, 'key')) else a for a in args)
+    k = tuple(_argkey(a) for a in args)
     return _mk_atom(('app', fname, k), 'app', fname, args)
+
+
+def _argkey(a):
+    if isinstance(a, Atom):
+        return ('atom', a.id)
+    k = getattr(a, 'key', None)
+    if callable(k):
+        return k()
+    return a
 
 
 def atom_by_id(i):
